@@ -1,1 +1,499 @@
--- C13: property theorems (to be filled in)
+/-
+C13 — arithmetic follows Python numerics on the declared value types: property theorems.
+
+Every theorem is universally quantified over the abstract double `N : Num` (no law assumed), over all
+operand texts / slots / values, and — the compositional ones — over expression trees of any depth.
+`evalPy true` is the reference ("what Python computes", with the property's clause "`**` is a real power");
+`evalPy false` is CPython to the letter (`int ** non-negative int` is an `int`).
+
+Where the code violates the statement there is a `_counterexample` on a literal, the `_partial` theorems carry
+the matching decidable exclusion (`Expr.noFloatMod`, `Expr.noFloatNot`, `Expr.noNegBool`, `condIntegral`), and
+known_findings.jsonl lists the concrete failing input.
+-/
+import FaxVerif.C13.Proofs
+set_option linter.unusedSimpArgs false
+set_option linter.unusedVariables false
+namespace FaxVerif.C13
+open FaxVerif.Generated.C13Tables
+variable {N : Num}
+
+/-! ## the generated tables -/
+
+/-- The operator tables read from the source on this run are exactly Python's operator ↦ the C++ operator of the
+same meaning; `**` is *not* in the binary table (it takes the `std::pow` path), `~` not in the unary one. -/
+theorem operator_tables :
+    binaryOps = [("Add", "+"), ("Sub", "-"), ("Mult", "*"), ("Div", "/"), ("Mod", "%")] ∧
+    unaryOps = [("UAdd", "+"), ("USub", "-"), ("Not", "!")] ∧
+    compareOps = [("Lt", "<"), ("LtE", "<="), ("Gt", ">"), ("GtE", ">="), ("Eq", "=="), ("NotEq", "!=")] := by
+  decide
+
+/-- `_type_priority` as read from the source orders the types by width (int < float < double) and does not
+know `bool`. -/
+theorem priority_table (t : CT) (p : Nat) : prio t = some p ↔ (t ≠ .bool ∧ p = t.rank) := by
+  cases t <;> simp [prio_int, prio_float, prio_double, prio_bool, CT.rank] <;> omega
+
+/-- **widest-type selection.** `most_accurate_type` returns a member of its argument that is at least as wide
+as every member (so: the widest), for lists of any length; no member is `bool`. -/
+theorem widest (ts : List CT) (t : CT) (h : mostAccurate ts = .ok t) :
+    t ∈ ts ∧ ∀ x ∈ ts, x ≠ .bool ∧ x.rank ≤ t.rank := by
+  obtain ⟨hm, pt, hpt, hall⟩ := mostAccurate_spec ts t h
+  refine ⟨hm, fun x hx => ?_⟩
+  obtain ⟨px, hpx, hle⟩ := hall x hx
+  obtain ⟨h1, h2⟩ := prio_is_rank x px hpx
+  obtain ⟨_, h4⟩ := prio_is_rank t pt hpt
+  exact ⟨h1, by omega⟩
+
+/-- `most_accurate_type` refuses (AssertionError) exactly the empty list and lists containing `bool`. -/
+theorem widest_refuses (ts : List CT) (e : Refusal) (h : mostAccurate ts = .error e) :
+    e = .assertion ∧ (ts = [] ∨ .bool ∈ ts) := by
+  obtain ⟨h1, h2⟩ := mostAccurate_error ts e h
+  refine ⟨h1, h2.imp id ?_⟩
+  rintro ⟨x, hx, hp⟩
+  cases x <;> first | exact hx | (simp [prio_int, prio_float, prio_double] at hp)
+
+example : mostAccurate [.int, .float, .double, .float] = .ok .double := by rfl
+example : (mostAccurate [.int, .bool]).toOption = none := by decide
+
+/-! ## the compositional theorems (expression trees of any depth) -/
+
+/-- **Value of an expression.** For every source expression `e` the translator accepts, outside the exclusions
+A (`%` on a real operand) and N (`not` on a real operand), on every sample on which every `%` has
+non-negative operands and on which Python's evaluation is defined: the emitted C++ expression is well-formed,
+and evaluates — under the usual arithmetic conversions, bool promotion, int/int truncation — to exactly the
+Python value (an `int` to the same `int`, a `float` to the same double, a `bool` to the same `bool`).
+Missing for the unrestricted statement: the two exclusions (false there, see the counterexamples). -/
+theorem expr_correct_partial (e : Expr) (r : Rep) (h : translate e = .ok r)
+    (hA : e.noFloatMod = true) (hN : e.noFloatNot = true)
+    (env : Env N) (hm : e.modNonneg env = true) (pv : PV N) (hpv : evalPy true env e = some pv) :
+    ∃ cv, evalC env r.ce = some cv ∧ cv.toPy = pv := by
+  obtain ⟨cv, h1, h2, _⟩ := (translate_sound e r h hA hN).2 env hm pv hpv
+  exact ⟨cv, h1, h2⟩
+
+/-- **integer-valued results remain integers.** Outside exclusion N the declared type of the result is a
+floating type exactly when Python's result is a `float` (with `**` real); so `int`/`bool`-valued results are
+declared `int`/`bool`. -/
+theorem int_stays_int (e : Expr) (r : Rep) (h : translate e = .ok r)
+    (hA : e.noFloatMod = true) (hN : e.noFloatNot = true) :
+    r.ty.isFloating = decide (e.pyKind true = .float) := by
+  have := (translate_sound (N := unitNum) e r h hA hN).1
+  simpa [Expr.isFloatKind] using this
+
+/-- **mixed operands promote to the wider type** (no exclusion needed): the declared type is at least as wide
+as every operand that flows into the value. -/
+theorem result_wide_enough (e : Expr) (r : Rep) (h : translate e = .ok r) : e.width ≤ r.ty.rank :=
+  translate_width e r h
+
+/-- **The column.** Outside the three expression-level exclusions (A, N and B: unary minus on a bool), the
+value stored in a column of the declared type satisfies the column clause of the property: it is numerically
+what Python computes, integer-valued results are stored in an integer type, real-valued ones in a floating type
+at least as wide as every operand. -/
+theorem column_correct_partial (e : Expr) (r : Rep) (h : translate e = .ok r) (hd : e.noDefect = true)
+    (env : Env N) (hm : e.modNonneg env = true) (pv : PV N) (hpv : evalPy true env e = some pv) :
+    ∃ cv, evalC env r.ce = some cv ∧ ColOk r.ty (e.pyKind true) e.width (convert r.ty cv) pv := by
+  simp only [Expr.noDefect, Bool.and_eq_true] at hd
+  obtain ⟨⟨hA, hN⟩, hB⟩ := hd
+  obtain ⟨hk, hv⟩ := translate_sound e r h hA hN
+  obtain ⟨cv, h1, h2, h3⟩ := hv env hm pv hpv
+  refine ⟨cv, h1, convert_ctype _ _, ?_, ?_⟩
+  · rw [← h2]
+    refine store_numEq r.ty cv h3 (fun hb => ?_)
+    have := (translate_boolInv (N := N) e r h hb).2 hB env cv h1
+    exact this (by rw [h3, hb]; rfl)
+  · have hw := translate_width e r h
+    simp only [kindOk]
+    by_cases hf : e.pyKind true = .float
+    · have : r.ty.isFloating = true := by rw [hk]; simp [Expr.isFloatKind, hf]
+      simp [hf, this, hw]
+    · have : r.ty.isFloating = false := by rw [hk]; simp [Expr.isFloatKind, hf]
+      simp [hf, this]
+
+/-- **Acceptance.** Every expression built from the property's operators in which no `+ - * / %` has a boolean
+operand is translated (no refusal). -/
+theorem accepts_in_scope (e : Expr) (h : e.mustAccept = true) : ∃ r, translate e = .ok r :=
+  translate_accepts e h
+
+/-! ## the operator × operand-kind table (depth one), for every operator of the generated tables -/
+
+/-- **binop_table.** For every operator in the generated binary table, and `**`, and every pair of non-boolean
+operand kinds — `%` only on the integer kinds and non-negative operands (the quantifier of the property) —: the
+translation succeeds, the emitted expression evaluates to Python's value, and the column clause holds. -/
+theorem binop_table (op : PyBin) (hop : (lookup binaryOps op.astName).isSome = true ∨ op = .pow)
+    (k₁ k₂ : Kind) (hk : k₁ ≠ .bool ∧ k₂ ≠ .bool) (hmod : op = .mod → k₁.isReal = false ∧ k₂.isReal = false)
+    (n₁ n₂ : Int) (s₁ s₂ : String) (i₁ i₂ : Nat) (env : Env N) (pv : PV N)
+    (hm : (Expr.bin op (k₁.operand n₁ s₁ i₁) (k₂.operand n₂ s₂ i₂)).modNonneg env = true)
+    (hpv : evalPy true env (.bin op (k₁.operand n₁ s₁ i₁) (k₂.operand n₂ s₂ i₂)) = some pv) :
+    ∃ r cv, translate (.bin op (k₁.operand n₁ s₁ i₁) (k₂.operand n₂ s₂ i₂)) = .ok r ∧
+      evalC env r.ce = some cv ∧ cv.toPy = pv ∧
+      ColOk r.ty ((Expr.bin op (k₁.operand n₁ s₁ i₁) (k₂.operand n₂ s₂ i₂)).pyKind true)
+        (Expr.bin op (k₁.operand n₁ s₁ i₁) (k₂.operand n₂ s₂ i₂)).width (convert r.ty cv) pv := by
+  have hops : op = .add ∨ op = .sub ∨ op = .mult ∨ op = .div ∨ op = .mod ∨ op = .pow := by
+    cases op <;> simp [lookup, binaryOps, PyBin.astName] at hop <;> simp
+  have hacc : (Expr.bin op (k₁.operand n₁ s₁ i₁) (k₂.operand n₂ s₂ i₂)).mustAccept = true := by
+    obtain ⟨h1, h2⟩ := hk
+    rcases hops with h | h | h | h | h | h <;> subst h <;> cases k₁ <;> cases k₂ <;>
+      simp_all [Expr.mustAccept, Expr.opsInScope, Expr.noBoolArith, Expr.boolish, Kind.operand, Expr.pyKind, CT.pk]
+  have hdef : (Expr.bin op (k₁.operand n₁ s₁ i₁) (k₂.operand n₂ s₂ i₂)).noDefect = true := by
+    obtain ⟨h1, h2⟩ := hk
+    rcases hops with h | h | h | h | h | h <;> subst h <;> cases k₁ <;> cases k₂ <;>
+      simp_all [Expr.noDefect, Expr.noFloatMod, Expr.noFloatNot, Expr.noNegBool, Kind.operand, Expr.isFloatKind,
+        Expr.pyKind, CT.pk, Kind.isReal]
+  obtain ⟨r, hr⟩ := accepts_in_scope _ hacc
+  simp only [Expr.noDefect, Bool.and_eq_true] at hdef
+  obtain ⟨cv, h1, h2⟩ := expr_correct_partial _ r hr hdef.1.1 hdef.1.2 env hm pv hpv
+  obtain ⟨cv', h1', h3⟩ := column_correct_partial _ r hr (by simp [Expr.noDefect, hdef]) env hm pv hpv
+  rw [h1] at h1'; cases h1'
+  exact ⟨r, cv, hr, h1, h2, h3⟩
+
+/-- non-vacuity: `Count()/2` on 7 jets — the translation is `(static_cast<double>(cnt)/2)`, declared `double` -/
+example : (translate (.bin .div (Kind.intCount.operand 0 "cnt" 1) (Kind.intLit.operand 2 "" 0))).toOption
+    = some ⟨.double, .bin "/" (.cast .double (.leaf .int "cnt" 1)) (.ilit 2)⟩ := by decide
+
+/-- **'/' is real division even between integers** (the repaired defect `c100516`, kept as a theorem so that a
+regression breaks the build): for two integer operands the emitted expression is `(static_cast<double>(a)/b)`
+and its value is the real quotient. -/
+theorem intdiv_real (a b : Int) (hb : b ≠ 0) (s : String) (i : Nat) (env : Env N) (hi : (env i).i = a) :
+    ∃ r, translate (.bin .div (.leaf .int s i) (.int b)) = .ok r ∧
+      r.ce = .bin "/" (.cast .double (.leaf .int s i)) (.ilit b) ∧ r.ty = .double ∧
+      evalC env r.ce = some (.dbl (N.div (N.ofInt a) (N.ofInt b))) := by
+  refine ⟨⟨.double, .bin "/" (.cast .double (.leaf .int s i)) (.ilit b)⟩, ?_, ?_, rfl, ?_⟩
+  · simp [translate, binHandled, lookup_div, emitBin, emitKnownBin, mostAccurate_pair, CT.rank]
+  · rfl
+  · simp [evalC, leafVal, convert, cBin, CV.isFloating, CV.ctype, CT.isFloating, CV.toD, mkF, wider, hi]
+
+/-- what the cast repairs: the same text without it truncates (`7/2 = 3`) -/
+theorem intdiv_without_cast_truncates :
+    evalC (N := N) (fun _ => ⟨7, N.ofInt 0, false⟩) (.bin "/" (.leaf .int "cnt" 1) (.ilit 2)) = some (.int 3) := by
+  simp [evalC, leafVal, cBin, CV.isFloating, CV.ctype, CT.isFloating, CV.toI]
+
+example : (CE.bin "/" (.cast .double (.leaf .int "aggResult2" 1)) (.ilit 2)).render = "(static_cast<double>(aggResult2)/2)" := by
+  decide
+
+/-- **'**' is a real power**: for all operand kinds (booleans included) the emitted text is `std::pow(a, b)`,
+declared `double`, and its value is the real power of the operands converted to double. -/
+theorem pow_real (k₁ k₂ : Kind) (n₁ n₂ : Int) (s₁ s₂ : String) (i₁ i₂ : Nat) (env : Env N) :
+    ∃ (r : Rep) (a b : CE) (ca cb : CV N),
+      translate (.bin .pow (k₁.operand n₁ s₁ i₁) (k₂.operand n₂ s₂ i₂)) = .ok r ∧ r.ty = .double ∧
+      r.ce = .pow a b ∧ evalC env a = some ca ∧ evalC env b = some cb ∧
+      (evalC env r.ce).map CV.toPy = some (.float (N.pow ca.toD cb.toD)) := by
+  have h1 : ∃ lr, translate (k₁.operand n₁ s₁ i₁) = .ok lr ∧ ∃ c, evalC env lr.ce = some c := by
+    cases k₁ <;> exact ⟨_, rfl, _, rfl⟩
+  have h2 : ∃ rr, translate (k₂.operand n₂ s₂ i₂) = .ok rr ∧ ∃ c, evalC env rr.ce = some c := by
+    cases k₂ <;> exact ⟨_, rfl, _, rfl⟩
+  obtain ⟨lr, hl, cl, hcl⟩ := h1
+  obtain ⟨rr, hr, cr, hcr⟩ := h2
+  refine ⟨⟨.double, .pow lr.ce rr.ce⟩, lr.ce, rr.ce, cl, cr, ?_, rfl, rfl, hcl, hcr, ?_⟩
+  · have hb : binHandled .pow = true := by decide
+    simp only [translate, hb, if_true, hl, hr, emitBin_pow_ok]
+  · simp only [evalC, hcl, hcr, Option.map, (pow_sound cl cr).1]
+
+/-- CPython gives an `int` for `int ** non-negative int`; the generated `double` is numerically that integer
+whenever the library power is exact on the operands (explicit hypothesis; nothing about IEEE is assumed). The
+property asks for a *real* power, so the `double` column is what it demands. -/
+theorem pow_int_exact_partial (a : Int) (n : Nat) (hex : N.pow (N.ofInt a) (N.ofInt n) = N.ofInt (a ^ n)) :
+    pyBin (N := N) false .pow (.int a) (.int n) = some (.int (a ^ n)) ∧
+    numEq (cPow (N := N) (.int a) (.int n)) (.int (a ^ n)) := by
+  constructor
+  · simp [pyBin, PV.isFloat, PV.toI]
+  · simp [numEq, cPow, CV.isFloating, CV.ctype, CT.isFloating, CV.toD, hex]
+
+/-- **unary.** For every operator of the generated unary table and every operand kind: the translation succeeds
+and the emitted `(op(x))` evaluates to Python's value (`+True` is 1, `-True` is −1, `not 2.5` is `False`). -/
+theorem unary (op : PyUn) (hop : (lookup unaryOps op.astName).isSome = true) (k : Kind)
+    (n : Int) (s : String) (i : Nat) (env : Env N) :
+    ∃ r cv pv, translate (.un op (k.operand n s i)) = .ok r ∧ evalC env r.ce = some cv ∧
+      evalPy true env (.un op (k.operand n s i)) = some pv ∧ cv.toPy = pv := by
+  have hops : op = .uadd ∨ op = .usub ∨ op = .not := by
+    cases op <;> simp [lookup, unaryOps, PyUn.astName] at hop <;> simp
+  rcases hops with h | h | h <;> subst h <;> cases k <;>
+    simp [translate, unHandled, lookup_uadd, lookup_usub, lookup_not, emitUn, Kind.operand, evalC, evalPy, leafVal,
+      cUn, pyUn, CV.toPy, CV.truthy, PV.truthy]
+
+/-- the declared type of a unary result is the operand's (`visit_UnaryOp`) -/
+theorem unary_type (op : PyUn) (e : Expr) (r : Rep) (h : translate (.un op e) = .ok r) :
+    ∃ er, translate e = .ok er ∧ r.ty = er.ty := by
+  simp only [translate] at h
+  split at h
+  · cases he : translate e with
+    | error x => simp [he] at h
+    | ok er =>
+      simp only [he] at h
+      refine ⟨er, rfl, ?_⟩
+      cases op <;> simp [emitUn, lookup_uadd, lookup_usub, lookup_not, lookup_invert] at h <;> (subst h; rfl)
+  · simp at h
+
+/-- **compare.** For each of the six comparisons of the generated table and every pair of operand kinds
+(booleans included): the translation succeeds, is declared `bool`, and evaluates to Python's truth value. -/
+theorem compare (op : PyCmp) (hop : (lookup compareOps op.astName).isSome = true) (k₁ k₂ : Kind)
+    (n₁ n₂ : Int) (s₁ s₂ : String) (i₁ i₂ : Nat) (env : Env N) :
+    ∃ r cv pv, translate (.cmp op (k₁.operand n₁ s₁ i₁) (k₂.operand n₂ s₂ i₂)) = .ok r ∧ r.ty = .bool ∧
+      evalC env r.ce = some cv ∧
+      evalPy true env (.cmp op (k₁.operand n₁ s₁ i₁) (k₂.operand n₂ s₂ i₂)) = some pv ∧ cv.toPy = pv := by
+  have hacc : (Expr.cmp op (k₁.operand n₁ s₁ i₁) (k₂.operand n₂ s₂ i₂)).mustAccept = true := by
+    cases op <;> simp [lookup, compareOps, PyCmp.astName] at hop <;> cases k₁ <;> cases k₂ <;>
+      simp [Expr.mustAccept, Expr.opsInScope, Expr.noBoolArith, Kind.operand]
+  obtain ⟨r, hr⟩ := accepts_in_scope _ hacc
+  have hty : r.ty = .bool := by
+    simp only [translate] at hr
+    cases hl : translate (k₁.operand n₁ s₁ i₁) with
+    | error x => simp [hl] at hr
+    | ok lr =>
+      cases hr' : translate (k₂.operand n₂ s₂ i₂) with
+      | error x => simp [hl, hr'] at hr
+      | ok rr =>
+        simp only [hl, hr', emitCmp] at hr
+        split at hr
+        · simp at hr; rw [← hr]
+        · simp at hr
+  have hpy : ∃ pv, evalPy true env (.cmp op (k₁.operand n₁ s₁ i₁) (k₂.operand n₂ s₂ i₂)) = some pv := by
+    cases op <;> simp [lookup, compareOps, PyCmp.astName] at hop <;> cases k₁ <;> cases k₂ <;>
+      simp [evalPy, Kind.operand, pyCmp, leafVal, CV.toPy, PV.isFloat]
+  obtain ⟨pv, hpv⟩ := hpy
+  have hnd : ∀ k : Kind, ∀ n s i, (k.operand n s i).noFloatMod = true ∧ (k.operand n s i).noFloatNot = true ∧
+      (k.operand n s i).modNonneg env = true := by
+    intro k n s i; cases k <;> simp [Kind.operand, Expr.noFloatMod, Expr.noFloatNot, Expr.modNonneg]
+  obtain ⟨cv, h1, h2⟩ := expr_correct_partial _ r hr
+    (by simp [Expr.noFloatMod, (hnd k₁ n₁ s₁ i₁).1, (hnd k₂ n₂ s₂ i₂).1])
+    (by simp [Expr.noFloatNot, (hnd k₁ n₁ s₁ i₁).2.1, (hnd k₂ n₂ s₂ i₂).2.1])
+    env (by simp [Expr.modNonneg, (hnd k₁ n₁ s₁ i₁).2.2, (hnd k₂ n₂ s₂ i₂).2.2]) pv hpv
+  exact ⟨r, cv, pv, hr, hty, h1, hpv, h2⟩
+
+/-! ## refusals -/
+
+/-- **bool_refused.** `+ - * / %` with a boolean-typed operand is *refused* — `most_accurate_type` raises
+AssertionError, nothing is emitted — and with two non-boolean operands it is accepted.  (The property's "computes
+what Python computes" is about generated jobs; a refusal generates none.  The exception class is C09's business.) -/
+theorem bool_refused (op : PyBin) (hop : (lookup binaryOps op.astName).isSome = true) (l r : Rep) :
+    (l.ty = .bool ∨ r.ty = .bool → emitBin op l r = .error .assertion) ∧
+    (l.ty ≠ .bool → r.ty ≠ .bool → ∃ res, emitBin op l r = .ok res) := by
+  have hops : op = .add ∨ op = .sub ∨ op = .mult ∨ op = .div ∨ op = .mod := by
+    cases op <;> simp [lookup, binaryOps, PyBin.astName] at hop <;> simp
+  obtain ⟨lt, lc⟩ := l; obtain ⟨rt, rc⟩ := r
+  constructor
+  · intro h
+    rcases hops with h' | h' | h' | h' | h' <;> subst h' <;> cases lt <;> cases rt <;> simp at h <;>
+      simp [emitBin, lookup_add, lookup_sub, lookup_mult, lookup_div, lookup_mod, emitKnownBin, mostAccurate_pair]
+  · intro h1 h2
+    exact emitBin_ok op (by rcases hops with h | h | h | h | h <;> simp [h]) _ _ h1 h2
+
+/-- every other Python operator (`//`, `@`, `<<`, `>>`, `|`, `^`, `&`, `~`, `is`, `in`, …) is refused -/
+theorem other_operators_refused :
+    (∀ op l r, (lookup binaryOps op.astName).isSome = false → op ≠ .pow → translate (.bin op l r) = .error .runtime) ∧
+    (∀ op e, (lookup unaryOps op.astName).isSome = false → translate (.un op e) = .error .runtime) ∧
+    (∀ op (l r : Rep), (lookup compareOps op.astName).isSome = false → emitCmp op l r = .error .keyError) := by
+  refine ⟨?_, ?_, ?_⟩
+  · intro op l r h hp
+    have : binHandled op = false := by simp [binHandled, h, hp]
+    simp [translate, this]
+  · intro op e h
+    have : unHandled op = false := by simp [unHandled, h]
+    simp [translate, this]
+  · intro op l r h
+    unfold emitCmp
+    cases hl : lookup compareOps op.astName with
+    | none => rfl
+    | some t => simp [hl] at h
+
+/-! ## constants, assignments, the conditional, aggregates -/
+
+/-- **const_typing.** `visit_Constant`: an `int` constant is typed `int` and written `str(n)`, a `float`
+constant is typed `double` and written with the text it was given, `True`/`False` are `bool` `true`/`false`. -/
+theorem const_typing (n : Int) (s : String) (i : Nat) (b : Bool) :
+    (translate (.int n)).toOption.map (fun r => (r.ty, r.ce.render)) = some (.int, toString n) ∧
+    (translate (.flt s i)).toOption.map (fun r => (r.ty, r.ce.render)) = some (.double, s) ∧
+    (translate (.bool b)).toOption.map (fun r => (r.ty, r.ce.render)) = some (.bool, if b then "true" else "false") := by
+  refine ⟨rfl, rfl, rfl⟩
+
+/-- The legacy `guess_type_from_number` (reached only through `visit_Num`, dead on Python ≥ 3.8) would type the
+float constant `2.0` as `int`; `visit_Constant` does not. Recorded, not a finding: the path is unreachable. -/
+theorem guess_type_legacy : guessTypeFromNumber true = .int ∧ guessTypeFromNumber false = .double := ⟨rfl, rfl⟩
+
+/-- **set_var_cast.** After `T x; x = <rhs>;` with the right-hand side `set_var` emits, `x` holds the value
+converted to `T` — whether or not the `static_cast` was written —, and the cast is written exactly when the
+declared types differ. -/
+theorem set_var_cast (t : CT) (v : Rep) (env : Env N) (c : CV N) (h : evalC env v.ce = some c) :
+    (evalC env (setVarRhs t v)).map (convert t) = some (convert t c) ∧
+    (setVarRhs t v).render = (if t ≠ v.ty then "static_cast<" ++ t.name ++ ">(" ++ v.ce.render ++ ")" else v.ce.render) := by
+  refine ⟨setVar_value t v env c h, ?_⟩
+  unfold setVarRhs
+  split <;> simp_all [CE.render]
+
+/-- **acc_wide_enough.** The accumulator's final type is the seed's or the update's, and is at least as wide as
+both — so `acc = update` never narrows. -/
+theorem acc_wide_enough (seed upd t : CT) (h : accType seed upd = .ok t) :
+    (t = seed ∨ t = upd) ∧ seed.rank ≤ t.rank ∧ upd.rank ≤ t.rank := by
+  unfold accType at h
+  split at h
+  · obtain ⟨hm, hall⟩ := widest _ _ h
+    simp only [List.mem_cons, List.not_mem_nil, or_false] at hm
+    exact ⟨hm, (hall seed (by simp)).2, (hall upd (by simp)).2⟩
+  · rename_i hne
+    simp only [ne_eq, Decidable.not_not] at hne
+    simp only [Except.ok.injEq] at h
+    subst h; subst hne
+    exact ⟨Or.inl rfl, Nat.le_refl _, Nat.le_refl _⟩
+
+/-- the `Aggregate` path refuses a boolean seed (ValueError) and a boolean update of another type (assertion) -/
+theorem agg_refusals (nm : String) (ifs : Nat) (seed : Rep) (u : Upd) :
+    (seed.ty = .bool → emitAgg nm ifs seed u = .error .valueError) ∧
+    (∀ o, emitAgg nm ifs seed u = .ok o → o.accTy ≠ .bool) := by
+  constructor
+  · intro h; simp [emitAgg, accTypeOk, h]
+  · intro o h
+    unfold emitAgg at h
+    split at h
+    · rename_i hok
+      cases hu : translateUpd nm ifs u with
+      | error e => simp [hu] at h
+      | ok cu =>
+        obtain ⟨c, upd⟩ := cu
+        simp only [hu] at h
+        cases ha : accType seed.ty upd.ty with
+        | error e => simp [ha] at h
+        | ok t =>
+          simp only [ha, Except.ok.injEq] at h
+          subst h
+          simp only
+          rcases (acc_wide_enough _ _ _ ha).1 with h1 | h1
+          · rw [h1]; intro hb; simp [accTypeOk, hb] at hok
+          · unfold accType at ha
+            split at ha
+            · have := (widest _ _ ha).2 t (by rw [h1]; simp)
+              exact this.1
+            · simp at ha; rw [← ha]; intro hb; simp [accTypeOk, hb] at hok
+    · simp at h
+
+/-- **Count().** The generated loop counts: declared `int`, value = number of elements = Python's. -/
+theorem count_correct (nm : String) (ifs : Nat) (elems : List (Env N)) :
+    ∃ o, emitAgg nm ifs seed0 countUpd = .ok o ∧ o.accTy = .int ∧
+      runAggC ifs o (.int 0) elems = some (.int elems.length) ∧
+      runAggPy true countUpd (.int 0) elems = some (.int elems.length) := by
+  have := count_run (N := N) ifs elems 0
+  exact ⟨countOut, emitAgg_count nm ifs, rfl, by simpa using this.1, by simpa using this.2⟩
+
+/-- **Sum().** Over values of declared type `k ∈ {int, float, double}`: the accumulator is declared `k` (seeded
+with the int 0 and widened), and the generated loop computes, for every list of elements, a value numerically
+equal to Python's `0 + v₁ + v₂ + …` — an `int` for `int`s. -/
+theorem sum_correct (nm : String) (ifs : Nat) (k : CT) (hk : k ≠ .bool) (s : String) (slot : Nat)
+    (hs : slot ≠ accSlot) (elems : List (Env N)) :
+    ∃ o c p, emitAgg nm ifs seed0 (sumUpd k s slot) = .ok o ∧ o.accTy = k ∧
+      runAggC ifs o (convert k (.int 0)) elems = some c ∧
+      runAggPy true (sumUpd k s slot) (.int 0) elems = some p ∧ c.ctype = k ∧ numEq c p := by
+  obtain ⟨c, p, h1, h2, h3, h4⟩ := sum_run (N := N) ifs k hk s slot hs elems (convert k (.int 0)) (.int 0)
+    (convert_ctype _ _)
+    (by cases k <;> simp at hk <;> simp [numEq, convert, CV.isFloating, CV.ctype, CT.isFloating, CV.toI, CV.toD])
+    trivial
+  exact ⟨sumOut k s slot, c, p, emitAgg_sum nm ifs k hk s slot hs, rfl, h1, h2, h3, h4⟩
+
+/-- **Max() / Min()** over `float`/`double` values: the accumulator is declared `double` (the conditional's
+type), and the loop computes a value numerically equal to Python's fold of `acc if acc > v else v` from 0.
+(Seeding with 0 is func_adl's definition and C01's concern, not a numeric one.) Partial: integer values are
+exclusion E — see `max_int_counterexample`. -/
+theorem maxmin_correct_partial (gt : Bool) (nm : String) (ifs : Nat) (hi : ifs ≠ accSlot) (k : CT)
+    (hk : k = .float ∨ k = .double) (s : String) (slot : Nat) (hs : slot ≠ accSlot) (elems : List (Env N)) :
+    ∃ o c p, emitAgg nm ifs seed0 (mmUpd gt k s slot) = .ok o ∧ o.accTy = .double ∧
+      runAggC ifs o (.dbl (N.ofInt 0)) elems = some c ∧
+      runAggPy true (mmUpd gt k s slot) (.int 0) elems = some p ∧ c.ctype = .double ∧ numEq c p := by
+  obtain ⟨c, p, h1, h2, h3, h4⟩ := mm_run (N := N) gt nm ifs hi k hk s slot hs elems (.dbl (N.ofInt 0)) (.int 0) rfl
+    (by simp [numEq, CV.isFloating, CV.ctype, CT.isFloating, CV.toD]) trivial
+  have hkb : k ≠ .bool := by rcases hk with h | h <;> simp [h]
+  refine ⟨mmOut gt nm ifs k s slot, c, p, ?_, rfl, h1, h2, h3, h4⟩
+  cases gt
+  · simpa [mmUpd] using emitAgg_min nm ifs hi k hkb s slot hs
+  · simpa [mmUpd] using emitAgg_max nm ifs hi k hkb s slot hs
+
+/-- **A conditional yields its arm's value.** For any test and arms the translator accepts (test outside A and
+N): the generated `if (t) r = a; else r = b;` leaves in the `double` result variable a value numerically equal
+to the value of the arm Python selects. -/
+theorem cond_arm (nm : String) (slot : Nat) (t a b : Expr) (tr ar br : Rep)
+    (ht : translate t = .ok tr) (ha : translate a = .ok ar) (hb : translate b = .ok br)
+    (hd : t.noFloatMod = true ∧ t.noFloatNot = true ∧ a.noFloatMod = true ∧ a.noFloatNot = true ∧
+          b.noFloatMod = true ∧ b.noFloatNot = true)
+    (env : Env N) (hm : t.modNonneg env = true ∧ a.modNonneg env = true ∧ b.modNonneg env = true)
+    (pt pa pb : PV N) (hpt : evalPy true env t = some pt) (hpa : evalPy true env a = some pa)
+    (hpb : evalPy true env b = some pb) :
+    ∃ cv pv, evalCondC env (emitCond nm slot tr ar br) = some cv ∧ evalCondPy true env t a b = some pv ∧
+      cv.ctype = .double ∧ numEq cv pv := by
+  obtain ⟨ct, h1, h2⟩ := expr_correct_partial t tr ht hd.1 hd.2.1 env hm.1 pt hpt
+  obtain ⟨ca, h3, h4⟩ := expr_correct_partial a ar ha hd.2.2.1 hd.2.2.2.1 env hm.2.1 pa hpa
+  obtain ⟨cb, h5, h6⟩ := expr_correct_partial b br hb hd.2.2.2.2.1 hd.2.2.2.2.2 env hm.2.2 pb hpb
+  refine ⟨_, if pt.truthy then pa else pb, cond_value env nm slot tr ar br ct ca cb h1 h3 h5, ?_, convert_ctype _ _, ?_⟩
+  · simp only [evalCondPy, hpt]; split <;> assumption
+  · rw [← h2, toPy_truthy]
+    split
+    · rw [← h4]; exact numEq_toDouble ca
+    · rw [← h6]; exact numEq_toDouble cb
+
+/-- the conditional's result is declared `double` whatever the arms are, and each arm is assigned through the
+`set_var` rule -/
+theorem cond_shape (nm : String) (slot : Nat) (tr ar br : Rep) :
+    (emitCond nm slot tr ar br).result.ty = .double ∧
+    condLines nm (emitCond nm slot tr ar br) =
+      ["double " ++ nm ++ ";", "if (" ++ tr.ce.render ++ ")", nm ++ " = " ++ (setVarRhs .double ar).render ++ ";",
+       "else", nm ++ " = " ++ (setVarRhs .double br).render ++ ";"] := ⟨rfl, rfl⟩
+
+/-! ## where the code violates the statement -/
+
+/-- **Exclusion A.** `j.d() % 2`: accepted, emitted as `(j->d()%2)` declared `double` — not C++ (`%` needs
+integral operands): the generated job does not compile. -/
+theorem mod_float_counterexample :
+    ∃ r, translate (.bin .mod (.leaf .double "j->d()" 1) (.int 2)) = .ok r ∧ r.ce.render = "(j->d()%2)" ∧
+      r.ty = .double ∧ ∀ env : Env N, evalC env r.ce = none := by
+  refine ⟨⟨.double, .bin "%" (.leaf .double "j->d()" 1) (.ilit 2)⟩, by rfl, by decide, rfl, ?_⟩
+  intro env
+  simp [evalC, leafVal, cBin, CV.isFloating, CV.ctype, CT.isFloating]
+
+/-- **Exclusion B.** `-j.b()` with `b() == true`: declared `bool`; the C++ value −1 is stored as `true`, i.e. 1,
+where Python gives −1. -/
+theorem neg_bool_counterexample :
+    ∃ r cv, translate (.un .usub (.leaf .bool "j->b()" 1)) = .ok r ∧ r.ty = .bool ∧
+      evalC (N := N) (fun _ => ⟨0, N.ofInt 0, true⟩) r.ce = some cv ∧ cv.toPy = .int (-1) ∧
+      convert r.ty cv = .bool true ∧ ¬ numEq (convert r.ty cv) (.int (-1) : PV N) := by
+  refine ⟨⟨.bool, .un "-" (.leaf .bool "j->b()" 1)⟩, .int (-1), by rfl, rfl, ?_, rfl, ?_, ?_⟩
+  · simp [evalC, leafVal, cUn, b2i]
+  · simp [convert, CV.truthy]
+  · simp [numEq, convert, CV.truthy, CV.isFloating, CV.ctype, CT.isFloating, CV.toI, b2i]
+
+/-- **Exclusion N.** `(not j.d())/2`: `not` keeps the operand's declared type `double`, so `/` sees no need
+for a cast; in C++ `(!(d))` is a `bool`, `bool/int` is integer division: 0 where Python gives 0.5 (a float). -/
+theorem not_float_counterexample :
+    ∃ r, translate (.bin .div (.un .not (.leaf .double "j->d()" 1)) (.int 2)) = .ok r ∧
+      r.ce.render = "((!(j->d()))/2)" ∧ r.ty = .double ∧
+      ∀ (env : Env N) (x : N.D), evalC env r.ce = some (.int 0) ∧ ¬ numEq (.int 0 : CV N) (.float x) := by
+  refine ⟨⟨.double, .bin "/" (.un "!" (.leaf .double "j->d()" 1)) (.ilit 2)⟩, by rfl, by decide, rfl, ?_⟩
+  intro env x
+  constructor
+  · simp only [evalC, leafVal, cUn]
+    cases h : (CV.dbl (env 1).d : CV N).truthy <;>
+      simp [cBin, CV.isFloating, CV.ctype, CT.isFloating, CV.toI, b2i, h] <;> decide
+  · simp [numEq, CV.isFloating, CV.ctype, CT.isFloating]
+
+/-- `not` on a real operand alone: the `bool` result is declared `double` (a `double` column for a truth value) -/
+theorem not_float_kind_counterexample :
+    ∃ r, translate (.un .not (.leaf .double "j->d()" 1)) = .ok r ∧ r.ty = .double ∧
+      kindOk r.ty ((Expr.un .not (.leaf .double "j->d()" 1)).pyKind true) 0 = false := by
+  exact ⟨⟨.double, .un "!" (.leaf .double "j->d()" 1)⟩, by rfl, rfl, by decide⟩
+
+/-- **Exclusion E.** `j.i() if j.d() > 1 else 2`: both arms are integers, Python's result is an `int`; the result
+variable — hence the column — is declared `double`: an integer-valued result does not remain an integer. -/
+theorem cond_int_counterexample (nm : String) (slot : Nat) (tr : Rep) :
+    condIntegral (.leaf .int "j->i()" 1) (.int 2) = true ∧
+    (emitCond nm slot tr ⟨.int, .leaf .int "j->i()" 1⟩ ⟨.int, .ilit 2⟩).result.ty = .double ∧
+    kindOk .double (condKind (.leaf .int "j->i()" 1) (.int 2)) (condWidth (.leaf .int "j->i()" 1) (.int 2)) = false := by
+  refine ⟨by decide, rfl, by decide⟩
+
+/-- the same through `Max()`: over `int` values the accumulator, hence the column, is `double` -/
+theorem max_int_counterexample (nm : String) (ifs : Nat) (hi : ifs ≠ accSlot) (s : String) (slot : Nat)
+    (hs : slot ≠ accSlot) :
+    ∃ o, emitAgg nm ifs seed0 (maxUpd .int s slot) = .ok o ∧ o.accTy = .double ∧ kindOk o.accTy .int 0 = false :=
+  ⟨_, emitAgg_max nm ifs hi .int (by simp) s slot hs, rfl, by simp [mmOut, kindOk, CT.isFloating]⟩
+
+/-- outside the property's quantifier (it says non-negative operands for `%`), recorded for completeness:
+C++ `%` truncates, Python's floors — `-7 % 2` is −1 in the generated code, 1 in Python. -/
+theorem mod_negative_differs :
+    cBin (N := N) "%" (.int (-7)) (.int 2) = some (.int (-1)) ∧
+    pyBin (N := N) true .mod (.int (-7)) (.int 2) = some (.int 1) := by
+  constructor
+  · simp [cBin, CV.isFloating, CV.ctype, CT.isFloating, CV.toI]
+  · simp [pyBin, PV.isFloat, PV.toI]
+
+end FaxVerif.C13
